@@ -86,6 +86,11 @@ class NetworkFamily:
 
     def mutate(self, obj, m, v):
         held = HELD.setdefault(id(obj), {})
+        if m == "node_weights~getset":        # take the array the object hands out, edit it, assign it back
+            w = obj.node_weights
+            w[...] = WEIGHTS[v]
+            obj.node_weights = w
+            return
         same = m.endswith("~same")
         m = m[:-5] if same else m
 
@@ -576,6 +581,8 @@ def apply_abs(a, m, v):
     a = dict(a)
     if m.endswith("~same"):
         m = m[:-5]
+    if m.endswith("~getset"):
+        m = m[:-7]
     if m in ("adjacency", "set_edge_list"):
         a["A"], a["LA"] = v, 0
     elif m == "node_weights":
